@@ -46,6 +46,17 @@ func vTab(id int) Val      { return Val{K: "t", T: id} }
 
 var vNil = Val{K: "n"}
 
+// bigNumPool: numbers around 2^53 and 2^63 whose order needs exact mixed
+// integer/float comparison.
+var bigNumPool = []Val{
+	vInt(math.MaxInt64), vInt(math.MaxInt64 - 1), vInt(math.MaxInt64 - 2), vInt(math.MinInt64), vInt(math.MinInt64 + 1), vInt(math.MinInt64 + 2),
+	vInt(1 << 53), vInt(1<<53 + 1), vInt(1<<53 - 1), vInt(1<<53 + 2), vInt(-(1 << 53)), vInt(-(1 << 53) - 1),
+	vInt(1 << 62), vInt(1<<62 + 1), vInt(1<<63 - 512), vInt(1<<63 - 513), vInt(1<<63 - 1024), vInt(1<<63 - 1025),
+	vFloat(9007199254740992), vFloat(9007199254740994), vFloat(-9007199254740992), vFloat(9223372036854775808), vFloat(-9223372036854775808),
+	vFloat(9223372036854774784), vFloat(4611686018427387904), vFloat(1e300), vFloat(-1e300), vFloat(math.Inf(1)), vFloat(math.Inf(-1)),
+	vInt(0), vFloat(0), vFloat(math.Copysign(0, -1)), vInt(1), vFloat(0.5),
+}
+
 func (v Val) model() libref.V {
 	switch v.K {
 	case "i":
@@ -1749,6 +1760,10 @@ func TestC19(t *testing.T) {
 				} else {
 					out[i] = vInt(int64(rapid.IntRange(-20, 20).Draw(t, "e")))
 				}
+			case "bignums":
+				// integers and floats that are equal or adjacent only under exact
+				// comparison (a float64 cannot tell them apart)
+				out[i] = rapid.SampledFrom(bigNumPool).Draw(t, "e")
 			case "tabs":
 				out[i] = vTab(i + 1)
 			default: // mixed strings and integers
@@ -1853,7 +1868,7 @@ func TestC19(t *testing.T) {
 	rec.Set("wall_tables_s", time.Since(t0).Seconds())
 
 	sortProp := func(t *rapid.T) {
-		kind := rapid.SampledFrom([]string{"ints", "ints", "strs", "tabs", "nums", "mixed"}).Draw(t, "kind")
+		kind := rapid.SampledFrom([]string{"ints", "ints", "strs", "tabs", "nums", "bignums", "bignums", "mixed"}).Draw(t, "kind")
 		n := genLen.Draw(t, "n")
 		ts := &TabSpec{Elems: genElems(t, kind, n), Len: int64(n)}
 		ts.Proxy = rapid.Bool().Draw(t, "proxy")
@@ -1865,7 +1880,7 @@ func TestC19(t *testing.T) {
 		if kind == "tabs" {
 			modes = modes[1:]
 		}
-		if kind == "nums" {
+		if kind == "nums" || kind == "bignums" {
 			modes = []string{"none"}
 		}
 		mode := rapid.SampledFrom(modes).Draw(t, "cmp")
